@@ -13,7 +13,7 @@ import sys
 
 sys.path.insert(0, os.path.join(os.path.dirname(os.path.abspath(__file__)), ".."))
 from framework import Check, drive, hexs  # noqa: E402
-from lib import (BASE, C, pkt, com_stmt_execute, com_change_user, decode_resultset, parse_coldef, parse_eof, parse_ok, parse_err,
+from lib import (decode_text_row, BASE, C, pkt, com_stmt_execute, com_change_user, decode_resultset, parse_coldef, parse_eof, parse_ok, parse_err,
                  settle, Bad, T_LONG)  # noqa: E402
 from connharness import Driven, plan_token, rows_token  # noqa: E402
 
@@ -378,6 +378,99 @@ async def wide_responses(chk, rng, n):
         await a.finish()
 
 
+async def interrupted_streams(chk, rng, count):
+    """a response that is cut short while the client is not reading: the transport stops accepting data in the middle of a
+    result set that is larger than the write buffer, the statement is ended from outside (KILL QUERY through the control, as
+    a KILL statement of another connection does) or its row source fails, the client reads again.  Whatever was written
+    must still be ONE well-formed response: metadata, a prefix of the rows, exactly one ERR, consecutive sequence ids; the
+    next command is answered in step."""
+    from lib import Peer, RecSession, mkserver
+    from mysql_mimic import ResultColumn, ColumnType
+    from mysql_mimic.constants import KillKind
+    for i in range(count):
+        nrows = rng.choice([3000, 5000, 9000])
+        width = rng.choice([8, 20, 60])
+        fail_at = rng.choice([None, None, nrows // 2])
+        asyncgen = rng.random() < 0.5
+
+        def beh(sess, e, sql, attrs, nrows=nrows, width=width, fail_at=fail_at, asyncgen=asyncgen):
+            cols = [ResultColumn("c", ColumnType.VARCHAR)]
+            if asyncgen:
+                async def ag():
+                    for k in range(nrows):
+                        if fail_at is not None and k == fail_at:
+                            raise RuntimeError("row source failure")
+                        yield ("%06d" % k + "x" * width,)
+                return ag(), cols
+
+            def g():
+                for k in range(nrows):
+                    if fail_at is not None and k == fail_at:
+                        raise RuntimeError("row source failure")
+                    yield ("%06d" % k + "x" * width,)
+            return g(), cols
+        s = RecSession(beh)
+        srv = mkserver([s])
+        a = Peer(srv)
+        caps = rng.choice([BASE, BASE | C.CLIENT_DEPRECATE_EOF])
+        await a.login(caps=caps)
+        binary = rng.random() < 0.4
+        if binary:
+            await a.cmd(b"\x16select c from t")
+        a.take()
+        a.t.block()                       # the client stops reading before the command is sent
+        kill = fail_at is None or rng.random() < 0.3
+        a.t.feed(pkt(0, com_stmt_execute(0, [], caps=caps) if binary else b"\x03select c from t"))
+        await settle(rng.choice([30, 80, 200]))
+        if kill:
+            await srv.control.kill(a.greeting["cid"], KillKind.QUERY)
+            await settle(10)
+        a.t.unblock()
+        for _ in range(400):
+            n0 = len(a.t.out)
+            await settle(20)
+            if len(a.t.out) == n0:
+                break
+        out = a.take()
+        desc = dict(rows=nrows, width=width, source="async generator" if asyncgen else "generator", protocol="binary" if binary else "text",
+                    deprecate_eof=bool(int(caps) & int(C.CLIENT_DEPRECATE_EOF)), killed_while_blocked=kill, source_fails_at=fail_at, seed=chk.seed, case=i)
+        chk.count("interrupted:" + ("kill" if kill else "source-failure"))
+        chk.case(("interrupted", nrows, width, asyncgen, binary, kill, fail_at))
+        seqs = [q for q, _ in out]
+        if seqs != [(k + 1) % 256 for k in range(len(seqs))]:
+            bad = next(k for k in range(len(seqs)) if seqs[k] != (k + 1) % 256)
+            chk.fail("sequence ids of an interrupted response are not consecutive", desc, dict(position=bad, got=seqs[max(0, bad - 2):bad + 3]))
+            await a.finish()
+            continue
+        try:
+            pk = [p for _, p in out]
+            dep = bool(int(a.caps) & int(C.CLIENT_DEPRECATE_EOF))
+            if pk and pk[-1][:1] == b"\xff" and len(pk) < 2 + 1 + (0 if dep else 1):
+                # ended during the metadata: column count, at most that many column definitions, [EOF], then the one ERR
+                parse_err(pk[-1])
+                if len(pk) > 1:
+                    if pk[0] != b"\x01":
+                        raise Bad("column count packet")
+                    for q in pk[1:-1][:1]:
+                        parse_coldef(q)
+                    for q in pk[2:-1]:
+                        parse_eof(q)
+                await a.finish()
+                continue
+            rs = decode_resultset(pk, a.caps)
+            rows = [decode_text_row(r, 1)[0][:6] for r in rs["rows"]] if not binary else None
+            if rows is not None and rows != [b"%06d" % k for k in range(len(rows))]:
+                chk.fail("rows of an interrupted response are not a prefix of the result", desc, dict(first_rows=[r.decode() for r in rows[:5]]))
+        except (Bad, IndexError, struct.error) as e:
+            chk.fail("an interrupted response is not one well-formed response", desc, dict(error=str(e), packets=len(out)))
+            await a.finish()
+            continue
+        pong = await a.cmd(b"\x0e")
+        if not (len(pong) == 1 and pong[0][0] == 1 and pong[0][1][:1] == b"\x00"):
+            chk.fail("the command after an interrupted response is not answered in step", desc, dict(reply=[(q, p[:6].hex()) for q, p in pong]))
+        await a.finish()
+
+
 def main():
     chk = Check("C03", sys.argv[1:])
     chk.rule = ("random command programs (1-12 commands over QUERY, PING, RESET_CONNECTION, DEBUG, INIT_DB, FIELD_LIST, STMT_PREPARE / "
@@ -397,6 +490,7 @@ def main():
         for k in range(6 if not chk.thorough else 100):
             await run_program(chk, rng, lines, impl, big=True)
         await wide_responses(chk, rng, 12 if not chk.thorough else 200)
+        await interrupted_streams(chk, rng, 10 if not chk.thorough else 150)
 
     asyncio.run(go())
     reply_packets(chk, rng, 400 if not chk.thorough else 6000)
